@@ -18,6 +18,7 @@ type FileCfg struct {
 	Ext     string `json:"ext,omitempty"`      // extension without dot, e.g. fa
 	Name    string `json:"name,omitempty"`     // file name used (relative to the scratch directory)
 	Odd     string `json:"odd_name,omitempty"` // use this unusual base name (without extension) instead of f<n>
+	Via     string `json:"via,omitempty"`      // how the path is spelled: "" | dot (./name) | abs | dotdot (sub/../name) | symlink (a link with the same suffix)
 }
 
 // Disk is the simulated storage: a scratch directory which the process has
@@ -54,11 +55,38 @@ func (d *Disk) Materialise(cfg *FileCfg, content []byte) (string, func()) {
 			base = cfg.Odd
 		}
 	}
+	// via spells the path of an existing file in another way
+	via := func(name string) (string, func()) {
+		switch cfg.Via {
+		case "dot":
+			return "./" + name, func() {}
+		case "abs":
+			wd, err := os.Getwd()
+			must(err)
+			return wd + "/" + name, func() {}
+		case "dotdot":
+			os.Mkdir("sub", 0o755)
+			return "sub/../" + name, func() { os.Remove("sub") }
+		case "symlink":
+			link := "ln-" + name // keeps the suffix, so suffix-driven decompression still applies
+			os.Remove(link)
+			must(os.Symlink(name, link))
+			return link, func() { os.Remove(link) }
+		}
+		return name, func() {}
+	}
 	switch cfg.Kind {
-	case "plain":
-		must(os.WriteFile(base, content, 0o644))
+	case "dangling-symlink":
+		os.Remove(base)
+		os.Remove("nothing-here")
+		must(os.Symlink("nothing-here", base))
 		cfg.Name = base
 		return base, func() { os.Remove(base) }
+	case "plain":
+		must(os.WriteFile(base, content, 0o644))
+		p, undo := via(base)
+		cfg.Name = p
+		return p, func() { undo(); os.Remove(base) }
 	case "gz", "gz2", "gztrunc":
 		name := base + ".gz"
 		var z []byte
@@ -86,8 +114,9 @@ func (d *Disk) Materialise(cfg *FileCfg, content []byte) (string, func()) {
 			z = z[:c]
 		}
 		must(os.WriteFile(name, z, 0o644))
-		cfg.Name = name
-		return name, func() { os.Remove(name) }
+		p, undo := via(name)
+		cfg.Name = p
+		return p, func() { undo(); os.Remove(name) }
 	case "fifo":
 		// a named pipe: delivers the bytes, but reports size 0 and cannot be seeked
 		name := base
